@@ -884,6 +884,149 @@ Proof.
   rewrite call_ser_trace by exact NF. rewrite E. subst seen. reflexivity.
 Qed.
 
+(* ---- frame: a rejected registration leaves no trace ---- *)
+Lemma new_service_rejected cs eo : rejected cs eo = true -> new_service cs eo = cs.
+Proof.
+  destruct eo as [e o]. unfold rejected, new_service. rewrite group_name_spec.
+  destruct (sget (spec_group (e, o)) cs); [reflexivity|].
+  rewrite extract_servable. destruct (servable_b (e, o)); [discriminate | reflexivity].
+Qed.
+
+Lemma build_app es1 es2 : build (es1 ++ es2) = fold_left new_service es2 (build es1).
+Proof. unfold build. apply fold_left_app. Qed.
+
+(* wherever it stands among the registrations *)
+Lemma rejected_frame pre eo post :
+  rejected (build pre) eo = true -> build (pre ++ eo :: post) = build (pre ++ post).
+Proof.
+  intro R. rewrite !build_app. simpl. rewrite (new_service_rejected _ _ R). reflexivity.
+Qed.
+
+(* what "rejected" means, in terms of the registrations before it *)
+Lemma rejected_spec pre eo :
+  rejected (build pre) eo = true <->
+  (exists w, owns pre (spec_group eo) w) \/ ~ servable eo.
+Proof.
+  unfold rejected. rewrite sget_build.
+  destruct (owner_b pre (spec_group eo)) as [w|] eqn:Ow; simpl.
+  - split; [|reflexivity]. intros _. left. exists w. apply owner_b_owns. exact Ow.
+  - rewrite negb_true_iff. split.
+    + intro Sv. right. intro S. apply servable_b_spec in S. congruence.
+    + intros [[w Hw]|NS].
+      * apply owner_b_owns in Hw. congruence.
+      * destruct (servable_b eo) eqn:Sv; [|reflexivity].
+        exfalso. apply NS. apply servable_b_spec. exact Sv.
+Qed.
+
+(* the tables are those of the accepted registrations alone *)
+Lemma fold_accepted es : forall cs,
+  fold_left new_service es cs = fold_left new_service (accepted_from cs es) cs.
+Proof.
+  induction es as [|eo r IH]; intro cs; simpl; [reflexivity|].
+  destruct (rejected cs eo) eqn:R.
+  - rewrite (new_service_rejected _ _ R). apply IH.
+  - simpl. apply IH.
+Qed.
+
+Lemma build_accepted es : build es = build (accepted es).
+Proof. unfold build, accepted. apply fold_accepted. Qed.
+
+(* and none of the accepted ones is rejected when taken alone, in order *)
+Lemma accepted_from_idem es : forall cs, accepted_from cs (accepted_from cs es) = accepted_from cs es.
+Proof.
+  induction es as [|eo r IH]; intro cs; simpl; [reflexivity|].
+  destruct (rejected cs eo) eqn:R; [apply IH|].
+  simpl. rewrite R. rewrite IH. reflexivity.
+Qed.
+
+Lemma resolve_accepted es route : resolve es route = resolve (accepted es) route.
+Proof.
+  pose proof (find_handler_resolve es route) as A.
+  pose proof (find_handler_resolve (accepted es) route) as B.
+  rewrite <- build_accepted in B. rewrite A in B.
+  destruct (resolve es route) as [m|], (resolve (accepted es) route) as [m'|]; simpl in B;
+    try discriminate; [|reflexivity].
+  inv B. reflexivity.
+Qed.
+
+(* history level: registering an entry that is rejected (with respect to what its collection has
+   registered so far) changes no later observation - whatever is registered, built, queried or
+   called afterwards *)
+Definition Same (k : Z) (reg : list eopt) (eo : eopt) (s s' : st) : Prop :=
+  forall j, s_cs (s j) = s_cs (s' j) /\
+    if j =? k then exists more, s_entries (s j) = reg ++ eo :: more /\ s_entries (s' j) = reg ++ more
+    else s_entries (s j) = s_entries (s' j).
+
+Lemma same_tables k reg eo s s' ks :
+  Same k reg eo s s' -> map (fun j => s_cs (s j)) ks = map (fun j => s_cs (s' j)) ks.
+Proof. intro R. apply map_ext. intro j. apply R. Qed.
+
+Lemma same_step k reg eo s s' o :
+  rejected (build reg) eo = true -> Same k reg eo s s' ->
+  snd (step s o) = snd (step s' o) /\ Same k reg eo (fst (step s o)) (fst (step s' o)).
+Proof.
+  intros Rj R.
+  destruct o as [j e op_|j|j r|j r|j sr r bytes dec c cb b|j r a c cb b|ks rid r bytes dec rawok cx b];
+    simpl.
+  - split; [reflexivity|]. intro i. unfold upd. destruct (i =? j) eqn:Eij; [|apply R].
+    apply Z.eqb_eq in Eij. subst i. destruct (R j) as [Rc Re]. simpl. split; [exact Rc|].
+    destruct (j =? k).
+    + destruct Re as [more [A B]]. exists (more ++ [(e, op_)]).
+      rewrite A, B. split; [rewrite <- app_assoc; reflexivity | rewrite <- app_assoc; reflexivity].
+    + rewrite Re. reflexivity.
+  - split; [reflexivity|]. intro i. unfold upd. destruct (i =? j) eqn:Eij; [|apply R].
+    apply Z.eqb_eq in Eij. subst i. destruct (R j) as [Rc Re]. simpl.
+    destruct (j =? k).
+    + destruct Re as [more [A B]]. split; [|exists more; auto].
+      rewrite A, B. apply rejected_frame. exact Rj.
+    + split; [rewrite Re; reflexivity | exact Re].
+  - destruct (R j) as [Rc _]. rewrite Rc. split; [reflexivity | exact R].
+  - destruct (R j) as [Rc _]. rewrite Rc. split; [reflexivity | exact R].
+  - destruct (R j) as [Rc _]. rewrite Rc. split; [reflexivity | exact R].
+  - destruct (R j) as [Rc _]. rewrite Rc. split; [reflexivity | exact R].
+  - rewrite (same_tables k reg eo s s' ks R). split; [reflexivity | exact R].
+Qed.
+
+Lemma same_run k reg eo ops : forall s s',
+  rejected (build reg) eo = true -> Same k reg eo s s' ->
+  snd (run_from s ops) = snd (run_from s' ops).
+Proof.
+  induction ops as [|o r IH]; intros s s' Rj R; simpl; [reflexivity|].
+  destruct (same_step k reg eo s s' o Rj R) as [Eo R1].
+  destruct (step s o) as [s1 b]. destruct (step s' o) as [s1' b']. simpl in *. subst b'.
+  specialize (IH s1 s1' Rj R1).
+  destruct (run_from s1 r) as [s2 bs]. destruct (run_from s1' r) as [s2' bs']. simpl in *.
+  rewrite IH. reflexivity.
+Qed.
+
+Lemma run_from_length ops : forall s, length (snd (run_from s ops)) = length ops.
+Proof.
+  induction ops as [|x r IH]; intro s0; simpl; [reflexivity|].
+  destruct (step s0 x) as [s1 b]. specialize (IH s1).
+  destruct (run_from s1 r) as [s2 bs]. simpl in *. rewrite IH. reflexivity.
+Qed.
+
+Lemma run_from_cons s o r :
+  snd (run_from s (o :: r)) = snd (step s o) :: snd (run_from (fst (step s o)) r).
+Proof. simpl. destruct (step s o) as [s1 b]. simpl. destruct (run_from s1 r). reflexivity. Qed.
+
+Lemma rejected_registration_leaves_no_trace h1 k e o h2 :
+  rejected (build (s_entries (final h1 k))) (e, o) = true ->
+  run (h1 ++ OReg k e o :: h2) = run h1 ++ BUnit :: skipn (length h1) (run (h1 ++ h2)).
+Proof.
+  intro Rj. unfold run.
+  destruct (run_from_app h1 init (OReg k e o :: h2)) as [_ B]. rewrite B.
+  destruct (run_from_app h1 init h2) as [_ B']. rewrite B'.
+  pose proof (run_from_length h1 init) as L.
+  rewrite <- L. rewrite skipn_app, skipn_all, Nat.sub_diag. simpl skipn. simpl app at 2.
+  f_equal. fold (final h1). rewrite run_from_cons. simpl step. simpl snd. simpl fst. f_equal.
+  apply (same_run k (s_entries (final h1 k)) (e, o)); [exact Rj|].
+  intro j. unfold upd. destruct (j =? k) eqn:Ejk.
+  - apply Z.eqb_eq in Ejk. subst j. simpl. split; [reflexivity|].
+    exists []. rewrite app_nil_r. split; reflexivity.
+  - split; reflexivity.
+Qed.
+
 (* ---- readable corollaries ---- *)
 Lemma invoked_once es s route dec c cb b mt seen :
   f4_ser es s route dec cb = false ->
